@@ -265,7 +265,7 @@ def run_seed(seed: int) -> dict:
     kind = 'w2' if seed % 4 == 3 else 'w1'
     out = {'seed': seed, 'kind': kind, 'violations': [], 'harness': None}
     try:
-        case = runmod.fork_run(case_w2 if kind == 'w2' else case_w1, seed, real_timeout=180)
+        case = runmod.fork_run(case_w2 if kind == 'w2' else case_w1, seed, real_timeout=180, seed=seed)
     except runmod.RunFailed as err:
         out['harness'] = str(err)[:1200]
         return out
